@@ -125,6 +125,7 @@ class C03(Check):
         "loop, symmetry, eigenvalues, error; end-to-end: a real measurement versus the same measurement on catalogs "
         "rebuilt without patch k; histograms: HistData.from_catalog versus a recount without patch k. "
         "non-trivial = >= 2 patches and at least one well-conditioned sample row compared; distinct = case parameters"
+        ' Histograms: weights spanning 15 decades, a patch without any object inside the binning; samples compared directly with the recount to the rounding of a sum over the remaining patches.'
     )
     assumptions = [
         "ratios are compared only where the leave-one-out denominator exceeds 1e-9 of the full-sample value (DESIGN §3.2)",
